@@ -30,7 +30,7 @@ inductive Ev
   | wstep (w : Nat) (r : Option Bool)          -- none = noop, some true = exited, some false = still running
   | wquit (w : Nat) (did : Bool)
   | wstop (w : Nat)
-  | wjoin (w : Nat) (t : Int) (r : JoinRes)
+  | wjoin (w : Nat) (t : Int) (r : JoinRes) (sleeps : Nat)   -- sleeps = nanosleep(10 ms) calls made by the join
   | wdestroy (w : Nat) (did : Bool)
   | tinit (rc : Int)
   | tstart (ms : Nat) (rc : Int)
@@ -85,16 +85,16 @@ def Wk.joinStep (w : Wk) (t : Nat) : JoinPc → Option JoinPc
   | .pjoin => if w.th = .exited then some (.done true) else none
   | .done r => some (.done r)
 
-/-- run the join alone (no other thread moves), `fuel` steps -/
-def Wk.joinAlone (w : Wk) (t : Nat) : Nat → JoinPc → JoinRes
-  | 0, _ => .overran
-  | fuel + 1, pc =>
+/-- run the join alone (no other thread moves), `fuel` steps; second component = number of 10 ms sleeps made -/
+def Wk.joinAlone (w : Wk) (t : Nat) : Nat → JoinPc → Nat → JoinRes × Nat
+  | 0, _, sl => (.overran, sl)
+  | fuel + 1, pc, sl =>
     match pc with
-    | .done true => .rc1
-    | .done false => .rc0
+    | .done true => (.rc1, sl)
+    | .done false => (.rc0, sl)
     | _ => match w.joinStep t pc with
-      | none => .overran
-      | some pc' => w.joinAlone t fuel pc'
+      | none => (.overran, sl)
+      | some pc' => w.joinAlone t fuel pc' (match pc' with | .loop _ => sl + 1 | _ => sl)
 
 /-- untimed `pthread_join`: returns only when the thread has exited -/
 def Wk.joinUntimed (w : Wk) : Option JoinRes := if w.th = .exited then some .rc1 else none
@@ -110,138 +110,130 @@ structure World where
   ws : List (Nat × Wk) := []
   tm : Tm := {}
   sleptActive : Nat := 0
-  out : List Ev := []          -- newest first
-
-def World.emit (s : World) (e : Ev) : World := { s with out := e :: s.out }
 
 def World.getW (s : World) (w : Nat) : Option Wk := (s.ws.find? (·.1 == w)).map (·.2)
 def World.setW (s : World) (w : Nat) (k : Wk) : World :=
   { s with ws := (w, k) :: s.ws.filter (·.1 != w) }
 
-def step (s : World) : Cmd → World
-  | .post p k d =>
-    let (rt, rc) := s.rt.post (k, d)
-    ({ s with rt }).emit (.post p k d rc)
-  | .wakeup => ({ s with rt := s.rt.ringBell }).emit (.wakeup 0)
+/-- one command: new state and the events it produces (oldest first) -/
+def stepE (s : World) : Cmd → World × List Ev
+  | .post p k d => ({ s with rt := (s.rt.post (k, d)).1 }, [.post p k d (s.rt.post (k, d)).2])
+  | .wakeup => ({ s with rt := s.rt.ringBell }, [.wakeup 0])
   | .wait max =>
-    if max = 0 then s.emit (.skip "wait-max-0")
-    else
-      let (rt, evs) := s.rt.wait max
-      ({ s with rt }).emit (.wait max evs)
+    if max = 0 then (s, [.skip "wait-max-0"])
+    else ({ s with rt := (s.rt.wait max).1 }, [.wait max (s.rt.wait max).2])
   | .qnew cap mm fl =>
     match s.q with
-    | some _ => s.emit (.skip "queue-exists")
-    | none => ({ s with q := Q.create cap mm fl }).emit (.qnew cap mm fl (Q.create cap mm fl).isSome)
+    | some _ => (s, [.skip "queue-exists"])
+    | none => ({ s with q := Q.create cap mm fl }, [.qnew cap mm fl (Q.create cap mm fl).isSome])
   | .enq p v size =>
     match s.q, s.blocked with
-    | none, _ => s.emit (.skip "no-queue")
-    | some _, some _ => s.emit (.skip "writer-already-blocked")
+    | none, _ => (s, [.skip "no-queue"])
+    | some _, some _ => (s, [.skip "writer-already-blocked"])
     | some q, none =>
       let m : Msg := ⟨p, v, size⟩
-      let (q', r) := q.enqueue m
-      let s := ({ s with q := some q' }).emit (.enq m r)
-      if r = .blocked then { s with blocked := some m } else s
+      ({ s with q := some (q.enqueue m).1, blocked := if (q.enqueue m).2 = .blocked then some m else none },
+       [.enq m (q.enqueue m).2])
   | .deq buf =>
     match s.q with
-    | none => s.emit (.skip "no-queue")
+    | none => (s, [.skip "no-queue"])
     | some q =>
-      let (q', r) := q.dequeue buf
-      let s := ({ s with q := some q' }).emit (.deq buf r)
       -- a successful dequeue sets `not_full`: the blocked writer wakes up and retries
-      match r, s.blocked with
-      | .msg _, some m =>
-        let (q'', r2) := q'.enqueue m
-        if r2 = .ok then ({ s with q := some q'', blocked := none }).emit (.unblocked m.p m.v) else s
-      | _, _ => s
+      match (q.dequeue buf).2, s.blocked with
+      | .msg x, some m =>
+        if ((q.dequeue buf).1.enqueue m).2 = .ok then
+          ({ s with q := some ((q.dequeue buf).1.enqueue m).1, blocked := none }, [.deq buf (.msg x), .unblocked m.p m.v])
+        else ({ s with q := some (q.dequeue buf).1 }, [.deq buf (.msg x)])
+      | r, _ => ({ s with q := some (q.dequeue buf).1 }, [.deq buf r])
   | .qstat =>
     match s.q with
-    | none => s.emit (.skip "no-queue")
-    | some q => s.emit (.qstat q.count q.enqCount q.deqCount q.dropCount q.head q.tail (q.count == 0) (q.count ≥ q.cap))
+    | none => (s, [.skip "no-queue"])
+    | some q => (s, [.qstat q.count q.enqCount q.deqCount q.dropCount q.head q.tail (q.count == 0) (q.count ≥ q.cap)])
   | .qclear =>
     match s.q, s.blocked with
-    | none, _ => s.emit (.skip "no-queue")
-    | some _, some _ => s.emit (.skip "writer-blocked")
-    | some q, none => ({ s with q := some q.clear }).emit .qclear
+    | none, _ => (s, [.skip "no-queue"])
+    | some _, some _ => (s, [.skip "writer-blocked"])
+    | some q, none => ({ s with q := some q.clear }, [.qclear])
   | .wnew w hold =>
     match s.getW w with
-    | some _ => s.emit (.skip "worker-exists")
-    | none =>
-      let k := Wk.create
-      let k := if hold then k else k.threadStep false
-      (s.setW w k).emit (.wnew w)
+    | some _ => (s, [.skip "worker-exists"])
+    | none => (s.setW w (if hold then Wk.create else Wk.create.threadStep false), [.wnew w])
   | .wstate w =>
     match s.getW w with
-    | some k => if k.destroyed then s.emit (.skip "destroyed") else s.emit (.wstate w k.state)
-    | none => s.emit (.skip "no-worker")
+    | some k => if k.destroyed then (s, [.skip "destroyed"]) else (s, [.wstate w k.state])
+    | none => (s, [.skip "no-worker"])
   | .wrelease w =>
     match s.getW w with
     | some k =>
-      if k.th = .spawned then (s.setW w (k.threadStep false)).emit (.wrelease w true) else s.emit (.wrelease w false)
-    | none => s.emit (.skip "no-worker")
+      if k.th = .spawned then (s.setW w (k.threadStep false), [.wrelease w true]) else (s, [.wrelease w false])
+    | none => (s, [.skip "no-worker"])
   | .wstep w =>
     match s.getW w with
     | some k =>
       if k.th = .inproc then
         -- the scripted procedure polls async_worker_should_stop once
-        if k.stopEv then (s.setW w k.runToExit).emit (.wstep w (some true)) else s.emit (.wstep w (some false))
-      else s.emit (.wstep w none)
-    | none => s.emit (.skip "no-worker")
+        if k.stopEv then (s.setW w k.runToExit, [.wstep w (some true)]) else (s, [.wstep w (some false)])
+      else (s, [.wstep w none])
+    | none => (s, [.skip "no-worker"])
   | .wquit w =>
     match s.getW w with
     | some k =>
-      if k.th = .inproc then (s.setW w k.runToExit).emit (.wquit w true) else s.emit (.wquit w false)
-    | none => s.emit (.skip "no-worker")
+      if k.th = .inproc then (s.setW w k.runToExit, [.wquit w true]) else (s, [.wquit w false])
+    | none => (s, [.skip "no-worker"])
   | .wstop w =>
     match s.getW w with
-    | some k => if k.destroyed then s.emit (.skip "destroyed") else (s.setW w k.signalStop).emit (.wstop w)
-    | none => s.emit (.skip "no-worker")
+    | some k => if k.destroyed then (s, [.skip "destroyed"]) else (s.setW w k.signalStop, [.wstop w])
+    | none => (s, [.skip "no-worker"])
   | .wjoin w t =>
     match s.getW w with
     | some k =>
-      if k.joined then s.emit (.skip "already-joined")
+      if k.joined then (s, [.skip "already-joined"])
       else if t < 0 then
         match k.joinUntimed with
-        | some r => (s.setW w { k with joined := true }).emit (.wjoin w t r)
-        | none => s.emit (.skip "untimed-join-on-live-thread")
+        | some r => (s.setW w { k with joined := true }, [.wjoin w t r 0])
+        | none => (s, [.skip "untimed-join-on-live-thread"])
       else
-        let r := k.joinAlone t.toNat (sleepsFor t.toNat + 3) (.loop 0)
-        (s.setW w { k with joined := r = .rc1 }).emit (.wjoin w t r)
-    | none => s.emit (.skip "no-worker")
+        let r := k.joinAlone t.toNat (sleepsFor t.toNat + 3) (.loop 0) 0
+        (s.setW w { k with joined := decide (r.1 = .rc1) }, [.wjoin w t r.1 r.2])
+    | none => (s, [.skip "no-worker"])
   | .wdestroy w =>
     match s.getW w with
     | some k =>
-      if k.destroyed then s.emit (.skip "destroyed")
-      else if k.joined then (s.setW w { k with destroyed := true }).emit (.wdestroy w true)
-      else s.emit (.wdestroy w false)
-    | none => s.emit (.skip "no-worker")
+      if k.destroyed then (s, [.skip "destroyed"])
+      else if k.joined then (s.setW w { k with destroyed := true }, [.wdestroy w true])
+      else (s, [.wdestroy w false])
+    | none => (s, [.skip "no-worker"])
   | .tinit =>
-    if s.tm.inited then s.emit (.skip "timer-inited") else ({ s with tm := { inited := true } }).emit (.tinit timerOk)
+    if s.tm.inited then (s, [.skip "timer-inited"]) else ({ s with tm := { inited := true } }, [.tinit timerOk])
   | .tstart ms =>
-    if !s.tm.inited then s.emit (.tstart ms timerErrNull)
-    else if ms = 0 then s.emit (.tstart ms timerErrInterval)
-    else if s.tm.active then s.emit (.tstart ms timerErrActive)
+    if !s.tm.inited then (s, [.tstart ms timerErrNull])
+    else if ms = 0 then (s, [.tstart ms timerErrInterval])
+    else if s.tm.active then (s, [.tstart ms timerErrActive])
     else ({ s with tm := { s.tm with active := true, stopReq := false, hasThread := true, interval := ms },
-                   sleptActive := 0 }).emit (.tstart ms timerOk)
+                   sleptActive := 0 }, [.tstart ms timerOk])
   | .tstop =>
-    if !s.tm.inited then s.emit (.tstop timerErrNull true)
+    if !s.tm.inited then (s, [.tstop timerErrNull true])
     else ({ s with tm := { s.tm with active := false, stopReq := s.tm.stopReq || s.tm.active, hasThread := false },
-                   sleptActive := 0 }).emit (.tstop timerOk true)
-  | .tactive => s.emit (.tactive (s.tm.inited && s.tm.active))
-  | .tsleep ms => (if s.tm.active then { s with sleptActive := s.sleptActive + ms } else s).emit (.tsleep ms)
+                   sleptActive := 0 }, [.tstop timerOk true])
+  | .tactive => (s, [.tactive (s.tm.inited && s.tm.active)])
+  | .tsleep ms => (if s.tm.active then { s with sleptActive := s.sleptActive + ms } else s, [.tsleep ms])
   | .tticks =>
-    let c := if !s.tm.active ∨ s.sleptActive = 0 then TickCls.none
-             else if s.sleptActive ≥ 10 * s.tm.interval then TickCls.some else TickCls.ambiguous
-    ({ s with sleptActive := 0 }).emit (.tticks c)
-  | .tafter => if s.tm.active then s.emit (.skip "timer-active") else s.emit (.tafter 0)
+    ({ s with sleptActive := 0 },
+     [.tticks (if !s.tm.active ∨ s.sleptActive = 0 then TickCls.none
+               else if s.sleptActive ≥ 10 * s.tm.interval then TickCls.some else TickCls.ambiguous)])
+  | .tafter => if s.tm.active then (s, [.skip "timer-active"]) else (s, [.tafter 0])
   | .tcleanup =>
-    if !s.tm.inited then s.emit (.skip "timer-not-inited")
-    else ({ s with tm := {}, sleptActive := 0 }).emit .tcleanup
-  | .mt kind _ => s.emit (.mt kind true "")
-  | .hbrace ms => s.emit (.hbrace ms true)
+    if !s.tm.inited then (s, [.skip "timer-not-inited"])
+    else ({ s with tm := {}, sleptActive := 0 }, [.tcleanup])
+  | .mt kind _ => (s, [.mt kind true ""])
+  | .hbrace ms => (s, [.hbrace ms true])
 
-def runCmds (cmds : List Cmd) : World := cmds.foldl step {}
+/-- run a command list: final state and all events, oldest first -/
+def runE : World → List Cmd → World × List Ev
+  | s, [] => (s, [])
+  | s, c :: rest => ((runE (stepE s c).1 rest).1, (stepE s c).2 ++ (runE (stepE s c).1 rest).2)
 
-def events (cmds : List Cmd) : List Ev := (runCmds cmds).out.reverse
+def events (cmds : List Cmd) : List Ev := (runE {} cmds).2
 
 /-! ### canonical text -/
 
@@ -264,7 +256,7 @@ def render : Ev → String
   | .wstep w r => s!"wstep {w} " ++ (match r with | none => "noop" | some true => "exited" | some false => "running")
   | .wquit w d => s!"wquit {w} {if d then "exited" else "noop"}"
   | .wstop w => s!"wstop {w}"
-  | .wjoin w t r => s!"wjoin {w} {t} " ++ (match r with | .rc0 => "0" | .rc1 => "1" | .overran => "overran")
+  | .wjoin w t r sl => s!"wjoin {w} {t} " ++ (match r with | .rc0 => "0" | .rc1 => "1" | .overran => "overran") ++ s!" {sl}"
   | .wdestroy w d => s!"wdestroy {w} {if d then "ok" else "refused"}"
   | .tinit rc => s!"tinit {rc}"
   | .tstart ms rc => s!"tstart {ms} {rc}"
